@@ -34,6 +34,10 @@ CHECKS = {
             "differential runtime monitor over bytecode variants (raw / RemoveDuplicates / Encode+Decode / original after Encode) run through NewVM.Run under the probe, plus invariant check of the de-duplicated constant pool",
             "Per program (repeated literals, closures, a source module imported from several places, builtin modules, byte-identical functions): three fresh compilations are post-processed like Script.Compile and cmd/tengo do and run; globals, error text and positions must equal the raw run; CONST/CLOSURE operands are range/type checked and no two de-duplicable constants may be equal; the original is re-run and re-encoded after Encode. Held on the programs listed in evidence.",
             "Trusted: gob (encoding), the reference model only as a filter for order-dependent programs."),
+    "C13": ("exploration",
+            "runtime monitors on the real compiler/VM: independent graph oracle (DFS) for cycle detection and compiled-once file-set multiplicity, reference-interpreter differential for module values, directed isolation probes, strace syscall monitor for file-system access with a positive control",
+            "Import graphs (all digraphs on <= 3 modules, random on 4-7, plain and path-like non-canonical module names, imports in functions and dead branches) must compile exactly when no cycle is reachable from main and list every reachable module once in the file set; generated module bodies are imported by generated programs and compared with the reference interpreter (immutability, undefined without export, body re-run per evaluated import); isolation probes in both directions; one helper process per run is traced with strace -f -e trace=%file: with file import disabled no syscall mentions a canary path and compilation fails with 'module not found', with it enabled the canaries are opened (proves the monitor sees the access). Held on the cases listed in evidence.",
+            "Trusted: the harness's DFS; the reference interpreter's module semantics; strace."),
     "C14": ("exploration",
             "reference-model runtime monitor for locations: the reference interpreter supplies the stack of executing statements, the real error's 'at file:line:col' trace is checked frame by frame against their source spans; errors.Is/As probes for sentinels and host errors",
             "Failing programs (planted failure of 30 kinds at call depth 0..12 behind functions with removable dead code, in main and in modules, multi-line and shared-line statements; generated programs with ill-typed operations) are run by the real engine and by the reference interpreter; message, frame count and containment of every reported position in the span of the statement executing in that frame are checked. Sentinels (allocation limit, stack overflow, index out of bounds, string/bytes limit) and a host error type are provoked at random depth and must be recognisable through errors.Is / errors.As. Held on the programs listed in evidence.",
